@@ -1,0 +1,8 @@
+//go:build !verif
+// +build !verif
+
+package node
+
+// verifPoint marks a named point on the persist / apply / snapshot / restart path.
+// Without the build tag `verif` it is an empty, inlineable stub.
+func verifPoint(name string) {}
